@@ -15,9 +15,9 @@ ALSO = {
     "C01": "The contracts of the other stages the composition relies on are decided by the rules of C03 (combinators), "
            "C05 (optimizer) and C07 (reader), which are re-run under this property (rules C01.C03-*, C01.C05-*, C01.C07-*). Stack's snapshot protocol (C11) and the per-back-end rule nesting, entry dispatch, built-ins and skip (C02.RULE/ENTRY/BUILTINS/SKIP) are re-run as well.",
     "C02": "ENTRY also decides that the start-rule dispatch templates call the function of the rule they match and that "
-           "the VM starts from the rule it is given; SKIP accepts an atomicity guard hoisted into an early return.",
+           "the VM starts from the rule it is given; SKIP accepts an atomicity guard hoisted into an early return. The VM keeps no mutable state of its own (VMPURE); every path of Vm::parse reaches pest::state.",
     "C03": "Also decided: who may write the token queue (besides rule/sequence every write is guarded by lookahead == "
-           "None), multi-step matchers work on a scratch position, the memchr-free search scans exhaustively. A failed skip_until leaves the cursor at the end on every false-returning path; a step of s.len() bytes is licensed only by a test that the input holds a slice of that byte length; a one-byte step only by an ASCII test on input data; Stack's snapshot protocol (C11's clauses) is re-run. No matcher narrows an input character with `as u8`.",
+           "None), multi-step matchers work on a scratch position, the memchr-free search scans exhaustively. A failed skip_until leaves the cursor at the end on every false-returning path; a step of s.len() bytes is licensed only by a test that the input holds a slice of that byte length; a one-byte step only by an ASCII test on input data; Stack's snapshot protocol (C11's clauses) is re-run. No matcher narrows an input character with `as u8`. POP removes the top whether or not it matches; a range-indexed slice of the stack is taken under a test ordering its bounds.",
     "C04": "Also decided: cached pair count protocol, agreement of the two line counters on what ends a line, one leaf "
            "predicate for sibling renderers, len() formulas vs step width, the serialized span of a sibling list is its "
            "window's span (pretty-print), and - re-run from C03 - the production of the token stream (RULE, REWIND, QUEUEW, SNAP). A counting len() counts over exactly the window start..end.",
@@ -25,7 +25,7 @@ ALSO = {
            "threaded by value is handed on on every result path, a rewrite never ignores an operand of the shape it matches. A variant the conversion maps to a native operator (RepOnce under grammar-extras) is not desugared into a sequence. Every arm of the restorer hands back the operator it matched.",
     "C06": "Also decided: top-level nullability questions start from an empty trace, only keyword tests may answer before "
            "the user's rule is looked up, and - re-run from C02 - both back-ends run WHITESPACE/COMMENT bodies atomically "
-           "(the validator's isolation argument depends on it). The left-recursion descent through a rule reference is suppressed by the current trace only, never by a memo that outlives the walk.",
+           "(the validator's isolation argument depends on it). The left-recursion descent through a rule reference is suppressed by the current trace only, never by a memo that outlives the walk. The optimizer clauses of C05 and the operator translations of C02 are re-run (what the validator proved must hold for the rules that are executed); a validation pass looks at every rule; known finding: implicit trivia calls inside a `!` rule called from WHITESPACE/COMMENT.",
     "C07": "Also decided: every stored literal passes the escape decoder; the meta-grammar's lexical rules (number, integer, "
            "string, character, identifier, tag) are deterministic and DFA-equivalent over all scalar values to the "
            "documented token syntax, on grammar.pest and on the PEG decompiled from the checked-in grammar.rs. An explicit error return of the reader never sits under a comparison of counts other than `== 0`.",
@@ -34,10 +34,10 @@ ALSO = {
     "C09": "Also decided: rendering (Display for Error and what it reaches in pest::error) never slices a string by a "
            "computed range and has no panic site; every token the meta-grammar can produce has a reader arm in every "
            "feature configuration (C07.ARMS re-run), so the reader's unreachable!() arm is unreachable; memo tables of "
-           "optimizer recursions never evict.",
+           "optimizer recursions never evict. Grammar numbers are followed into helper parameters; the front-end entry points read their own text parameter; the leading-`|` clause of C07 and the miette label arithmetic of C10 are re-run.",
     "C10": "Also decided (comparison-shaped clauses): the line iterator of a span stops only strictly past the span's end, "
            "the gutter width of a rendered error reads both line numbers of a span location, and the marker's start "
-           "column is rewritten only under a strict start > end. The diagnostic-label arithmetic of the miette adapter never subtracts the columns of a span unguarded; the error constructors never whitespace-trim the line text; merge_spans computes each bound from both arguments.",
+           "column is rewritten only under a strict start > end. The diagnostic-label arithmetic of the miette adapter never subtracts the columns of a span unguarded; the error constructors never whitespace-trim the line text; merge_spans computes each bound from both arguments. find_line_start searches back from the position itself.",
     "C11": "AGREE also decides which end of the popped segment the merge in clear_snapshot may cut: pop appends, so with "
            "a parent snapshot present a suffix-only cut keeps the wrong elements. The argument of truncate / split_off on the popped vector in clear_snapshot is computed from the vector's length.",
     "C12": "Also decided: the setter stores into the process-wide limit on every path with the sentinel the tracker reads "
@@ -45,7 +45,7 @@ ALSO = {
            "tracker is built. In every counting combinator the limit check precedes every write to the parser state, so a refused call hands back the caller's state. No public ParserState operation reaches an explicit panic site (empty-stack expect of POP / PEEK) without first leaving when the tracker says the limit was reached.",
     "C13": "Also decided: operator lookup precondition (binary search only over sorted tables), each operator of a `|` "
            "chain is registered under its own rule, and a rule declared twice resolves alike in PrattParser and "
-           "ConstPrattParser (last declaration wins in both). The expansions of prec_climber! and pratt_precedence! on a witness table (compiled, never run) give |-joined operators one level, later lines higher levels, and keep associativity.",
+           "ConstPrattParser (last declaration wins in both). The expansions of prec_climber! and pratt_precedence! on a witness table (compiled, never run) give |-joined operators one level, later lines higher levels, and keep associativity. Every constructor of PrattParser starts the level counter so that the first level is at least PREC_STEP, and op() stores the level read after the increment.",
     "C14": "Also decided: pest_meta::parser::parse is PestParser::parse on its own parameters (ENTRY); every rule function of "
            "grammar.rs decompiles to the expression an independent reader gives that rule in grammar.pest (INDEPENDENT, "
            "breaks the circularity of regeneration); VM agreement is C02 re-run on the default configuration. C05's optimizer clauses are re-run (the fresh derivation and the VM go through the optimizer).",
